@@ -359,6 +359,60 @@ pub async fn dc_roundtrip(from: &PeerConnection, id: u16, to_dc: &Arc<DataChanne
     }
 }
 
+pub const CONC_MEDIA: &[u8] = b"verif-c10 concurrent media \x00\xff";
+/// numbered, pattern-filled message `i` of the burst sent by `tag`
+pub fn burst_msg(tag: u8, i: u32, len: usize) -> Vec<u8> {
+    let mut m = Vec::with_capacity(len);
+    m.push(tag); m.extend_from_slice(&i.to_be_bytes());
+    for j in 5..len { m.push((i as usize * 31 + j * 7) as u8); }
+    m
+}
+
+/// Concurrent traffic on the live pair: every media source of both ends is pumped (a sample per millisecond,
+/// two pump tasks per source) while BOTH ends send a burst of `n` numbered, pattern-filled messages on the
+/// offerer-created channel at the same time. Returns, per direction, whether every message arrived in order
+/// and byte-intact. (Framing-sensitive transports — ICE-TCP's RFC 4571 framing — see two writers at once here.)
+pub async fn concurrent_media_and_data(p: &Pair, n: u32, len: usize, t: Duration) -> (Result<(), String>, Result<(), String>) {
+    let (Some(odc), Some(adc)) = (p.off.dc.clone(), p.ans.dc.clone()) else { return (Err("no channel".into()), Err("no channel".into())); };
+    let stop = Arc::new(std::sync::atomic::AtomicBool::new(false));
+    let mut pumps = vec![];
+    for side in [&p.off, &p.ans] { for m in &side.media { for _ in 0..2 {
+        let (src, kind, st) = (m.source.clone(), m.kind, stop.clone());
+        pumps.push(tokio::spawn(async move { let mut k = 0u32; while !st.load(Ordering::Relaxed) { if src.send(sample(kind, k, CONC_MEDIA)).is_err() { break; } k += 1; tokio::time::sleep(Duration::from_millis(1)).await; } }));
+    } } }
+    let send = |pc: PeerConnection, id: u16, tag: u8| tokio::spawn(async move {
+        for i in 0..n { if let Err(e) = pc.send_data(id, &burst_msg(tag, i, len)).await { return Err(format!("send_data #{i}: {e}")); } }
+        Ok::<(), String>(())
+    });
+    let recv = |dc: Arc<DataChannel>, tag: u8| async move {
+        let mut next = 0u32;
+        while next < n {
+            match dc.recv().await {
+                Some(DataChannelEvent::Message(m)) => {
+                    let want = burst_msg(tag, next, len);
+                    if m.as_ref() != want.as_slice() {
+                        let got_i = if m.len() >= 5 { u32::from_be_bytes([m[1], m[2], m[3], m[4]]) } else { u32::MAX };
+                        return Err(format!("message #{next} of {n}: got {} bytes (index field {got_i}, tag {:?}) instead of the expected {} bytes", m.len(), m.first(), want.len()));
+                    }
+                    next += 1;
+                }
+                Some(DataChannelEvent::Close) | None => return Err(format!("channel closed after {next} of {n} messages")),
+                Some(_) => {}
+            }
+        }
+        Ok::<(), String>(())
+    };
+    let (so, sa) = (send(p.off.pc.clone(), odc.id, b'o'), send(p.ans.pc.clone(), adc.id, b'a'));
+    let tt = scaled(t);
+    let (ra, ro) = tokio::join!(tokio::time::timeout(tt, recv(adc.clone(), b'o')), tokio::time::timeout(tt, recv(odc.clone(), b'a')));
+    stop.store(true, Ordering::Relaxed);
+    for h in pumps { h.abort(); }
+    let fin = |r: Result<Result<(), String>, tokio::time::error::Elapsed>, s: tokio::task::JoinHandle<Result<(), String>>| async move {
+        match r { Ok(x) => x, Err(_) => { let st = if s.is_finished() { "sender finished".to_string() } else { s.abort(); "sender still blocked".to_string() }; Err(format!("burst not delivered within {:?} ({st})", t)) } }
+    };
+    (fin(ra, so).await, fin(ro, sa).await)
+}
+
 fn sample(kind: MediaKind, n: u32, payload: &[u8]) -> MediaSample {
     match kind {
         MediaKind::Video => MediaSample::Video(VideoFrame { rtp_timestamp: n * 3000, data: Bytes::copy_from_slice(payload), is_last_packet: true, ..Default::default() }),
@@ -373,6 +427,11 @@ fn sample_payload(s: &MediaSample) -> Bytes {
 /// Push samples with `payload` into `src` until the receiving track of the `idx`-th media transceiver
 /// (same kind) of `to` yields a frame with exactly that payload, or `t` elapses.
 pub async fn rtp_roundtrip(src: &Media, to: &PeerConnection, payload: &[u8], t: Duration) -> Result<(), String> {
+    rtp_roundtrip_skipping(src, to, payload, t, None).await
+}
+
+/// … ignoring samples that carry exactly `skip` (left-overs of an earlier phase); any other payload is an error
+pub async fn rtp_roundtrip_skipping(src: &Media, to: &PeerConnection, payload: &[u8], t: Duration, skip: Option<&[u8]>) -> Result<(), String> {
     let recv_track = to.get_transceivers().into_iter()
         .find(|tr| tr.kind() == src.kind)
         .and_then(|tr| tr.receiver())
@@ -388,10 +447,14 @@ pub async fn rtp_roundtrip(src: &Media, to: &PeerConnection, payload: &[u8], t: 
         }
     });
     let want = payload.to_vec();
+    let skip = skip.map(|s| s.to_vec());
     let r = tokio::time::timeout(scaled(t), async {
         loop {
             match recv_track.recv().await {
-                Ok(s) => { let d = sample_payload(&s); if d.as_ref() == want.as_slice() { return Ok(()); } else { return Err(format!("payload altered ({} bytes)", d.len())); } }
+                Ok(s) => { let d = sample_payload(&s);
+                    if d.as_ref() == want.as_slice() { return Ok(()); }
+                    else if skip.as_deref() == Some(d.as_ref()) { continue; }
+                    else { return Err(format!("payload altered ({} bytes)", d.len())); } }
                 Err(e) => return Err(format!("track recv: {e:?}")),
             }
         }
